@@ -63,7 +63,7 @@ def is_zodb(case):
     return any(c[1] == "zodb" for c in case.get("cfg", []))
 
 
-def sprinkle(rng, case, share=0.15, barrier=None):
+def sprinkle(rng, case, share=0.15, barrier=None, aborts=True):
     """with probability `share` turn `case` into a ZODB-backed one: cfg zodb, a first `txn commit`, then
     commits / evictions / aborts between the commands.  barrier(cmd) -> True for commands after which no
     transaction command may be inserted (rarely needed)."""
@@ -79,7 +79,7 @@ def sprinkle(rng, case, share=0.15, barrier=None):
             out.append(["txn", "commit"])
         elif r < 0.15:
             out.append(["txn", "commit", "evict"])
-        elif r < 0.23:
+        elif r < 0.23 and aborts:
             out.append(["txn", "abort"])
     case = dict(case, cmds=out, cfg=list(case.get("cfg", [])) + [["cfg", "zodb", 1]])
     return case
